@@ -32,6 +32,8 @@ def fp_value(v):
 def fp_dict(d, drop=MANAGED):
     if d is None:
         return None
+    if not isinstance(d, dict):      # e.g. RDMs.mean(weights=<descriptor name>) stores a *set* of pairs as descriptors
+        return ('non-dict', type(d).__name__, repr(sorted(map(repr, d))) if isinstance(d, (set, frozenset, list, tuple)) else repr(d))
     return tuple(sorted((str(k), fp_value(v)) for k, v in d.items() if k not in drop))
 
 
